@@ -21,8 +21,8 @@ RULE = ("seq: random sequential histories (1..40 ops) of Claim/Release/IsOwner/L
         "(plus rare foreign protocol strings, empty session ids, Owner.Key different from the claimed key) over 1..4 tuples "
         "drawn from a pool with colliding and non-colliding shard hashes, same MAC on different C-VLANs, VLAN 0/65535; "
         "interleaved with stored-tuple-count (every stored tuple must sit in the shard shardFor names) and MakeTupleKey (MAC "
-        "length 0..8) observations, compared exactly, and shard observations (shards numbered in first-seen order), accepted when in 0..15 and the "
-        "same for the same tuple (the hash itself is an implementation choice). "
+        "length 0..8) observations, compared exactly, and shard observations (shards numbered in first-seen order), accepted when the "
+        "same for the same tuple (hash and number of shards are implementation choices). "
         "conc/rconc: 2..8 goroutines x 2..14 ops on 1..3 tuples run against the real Registry (rconc under -race), half of "
         "them with a disturber that makes the workers queue behind the shard mutex; the recorded invocation/response "
         "history plus quiescent final reads is searched for a linearization against the extracted model. Non-trivial: "
@@ -471,7 +471,7 @@ def classify(case, impl, model):
             return "P", "sequential history: implementation printed %d results, model %d: impl=%r" % (len(it), len(mt), impl[:200])
         diff = [i for i in range(len(it)) if it[i] != mt[i]]
         if diff and all(ops[i][0] == "s" for i in diff):
-            return "P", "shardFor is out of range or not a function of the tuple at op #%d (%s): impl=%s (modelled hash gives %s)" % (
+            return "P", "shardFor is not a function of the tuple (two different shards for one tuple) at op #%d (%s): impl=%s (model prints %s)" % (
                 diff[0], " ".join(ops[diff[0]]), it[diff[0]], mt[diff[0]])
         i = [d for d in diff if ops[d][0] != "s"][0] if diff else 0
         return "P", "sequential history: op #%d (%s) returned %s, the specification gives %s" % (
